@@ -29,7 +29,8 @@ def axioms_of(registry, name):
             if p in fixed:
                 st.env[p] = iv(fixed[p])
             else:
-                v = z3.Const(p + "_", A if shape == "arr" else I)
+                from pyvc.sym import A2
+                v = z3.Const(p + "_", A if shape == "arr" else (A2 if shape == "arr2" else I))
                 st.env[p] = v
                 bound.append(v)
         req = [tobool(speclang.evaluate(dummy, t, st, {})) for t in L["requires"].values()]
